@@ -65,6 +65,11 @@ pub struct SpawnCase {
     /// leaves the pipe inside the `Child` when it calls `wait` (the helper reads its stdin to the end)
     #[serde(default)]
     pub keep_stdin: bool,
+    /// how the arguments and environment entries reach the builder: a list of chunk lengths; chunks are
+    /// fed alternately one by one through `arg`/`env` and in one call through `args`/`envs` (an empty
+    /// list: everything one by one). A chunk of length 0 is an `args`/`envs` call with an empty iterator.
+    #[serde(default)]
+    pub feed: Vec<u8>,
 }
 
 /// Definitive dead-lock of `wait` against a child that reads its standard input to the end: the
@@ -218,13 +223,42 @@ fn run_case(c: &SpawnCase, root: &std::path::Path, rep: &mut CaseReport) -> Resu
 
     let extra_arg = us(b"added-after-the-failed-spawn");
     let mut cmd = Command::new(&bin).map_err(|e| Failure::new("Command::new|error", format!("{e}")))?;
-    for a in &arg_strings {
-        let r: &UnixStr = a;
-        cmd.arg(r);
+    {
+        // the same final list, fed through the builder's single and batch entry points in generated alternation
+        let mut i = 0usize;
+        let mut batch = false;
+        let mut plan = c.feed.iter().map(|&n| n as usize).collect::<Vec<_>>();
+        plan.push(usize::MAX);
+        for n in plan {
+            let end = i.saturating_add(n).min(arg_strings.len());
+            if batch {
+                cmd.args(arg_strings[i..end].iter().map(|a| -> &UnixStr { a }));
+            } else {
+                for a in &arg_strings[i..end] {
+                    let r: &UnixStr = a;
+                    cmd.arg(r);
+                }
+            }
+            i = end;
+            batch = !batch;
+        }
     }
     if let Some(env) = &c.env {
-        for e in env {
-            cmd.env(us(&e.0));
+        let mut i = 0usize;
+        let mut batch = true;
+        let mut plan = c.feed.iter().rev().map(|&n| n as usize).collect::<Vec<_>>();
+        plan.push(usize::MAX);
+        for n in plan {
+            let end = i.saturating_add(n).min(env.len());
+            if batch {
+                cmd.envs(env[i..end].iter().map(|e| us(&e.0)));
+            } else {
+                for e in &env[i..end] {
+                    cmd.env(us(&e.0));
+                }
+            }
+            i = end;
+            batch = !batch;
         }
     }
     if c.cwd != 0 {
@@ -538,6 +572,7 @@ fn run_case(c: &SpawnCase, root: &std::path::Path, rep: &mut CaseReport) -> Resu
                 let txt = std::fs::read_to_string(&dump_path).map_err(|e| Failure::new("spawn|child did not run the requested program", format!("spawn returned Ok but the helper left no dump: {e}")))?;
                 let d: serde_json::Value = serde_json::from_str(&txt).map_err(|e| Failure::new("harness|dump parse", e.to_string()))?;
                 let got_args: Vec<Vec<u8>> = d["args"].as_array().unwrap().iter().map(|a| unhex(a.as_str().unwrap())).collect();
+                rep.class_if(!c.feed.is_empty() && argv_model.len() > 5, "arguments-fed-through-arg-and-args");
                 ensure!(got_args == argv_model, "spawn|argv differs", "child saw argv {:?}, configured {:?}", got_args.iter().map(|a| escape(a)).collect::<Vec<_>>(), argv_model.iter().map(|a| escape(a)).collect::<Vec<_>>());
                 if let Some(env) = &c.env {
                     let raw = unhex(d["raw_env"].as_str().unwrap());
@@ -545,6 +580,7 @@ fn run_case(c: &SpawnCase, root: &std::path::Path, rep: &mut CaseReport) -> Resu
                     let want: Vec<Vec<u8>> = env.iter().map(|e| e.0.clone()).collect();
                     ensure!(got == want, "spawn|environment differs", "child environment {:?}, configured {:?}", got.iter().map(|a| escape(a)).collect::<Vec<_>>(), want.iter().map(|a| escape(a)).collect::<Vec<_>>());
                     rep.class("env-provided");
+                    rep.class_if(!c.feed.is_empty(), "environment-fed-through-env-and-envs");
                 }
                 let got_cwd = unhex(d["cwd"].as_str().unwrap());
                 if c.cwd == 1 {
@@ -802,7 +838,12 @@ pub fn case_strategy() -> impl Strategy<Value = SpawnCase> {
         .prop_map(|(prog, args, env, cwd, pgroup, ids, stdio, closures, exit_code, fault, (closed, wait_mode))| {
             // the closed-descriptor knob is combined only with fault-free runs of the helper
             let closed = if fault == Fault::None && prog == 0 { closed } else { [false; 3] };
-            SpawnCase { prog, args, env, cwd, pgroup, ids, stdio, closures, exit_code, fault, closed, wait_mode, keep_stdin: exit_code % 2 == 0 }
+            SpawnCase { prog, args, env, cwd, pgroup, ids, stdio, closures, exit_code, fault, closed, wait_mode, keep_stdin: exit_code % 2 == 0, feed: vec![] }
+        })
+        .prop_flat_map(|c| (Just(c), prop_oneof![2 => Just(vec![]), 3 => prop::collection::vec(0u8..5, 1..6)]))
+        .prop_map(|(mut c, feed)| {
+            c.feed = feed;
+            c
         })
 }
 
@@ -908,7 +949,7 @@ pub fn run(ctx: &Ctx) {
             for err in [0u8, 1] {
                 for exit_code in [0u8, 6] {
                     if k % ctx.nworkers == ctx.worker {
-                        let c = SpawnCase { prog: 0, args: vec![], env: None, cwd: 0, pgroup: false, ids: false, stdio: [3, out, err], closures: vec![], exit_code, fault: Fault::None, closed: [false; 3], wait_mode: 0, keep_stdin: true };
+                        let c = SpawnCase { prog: 0, args: vec![], env: None, cwd: 0, pgroup: false, ids: false, stdio: [3, out, err], closures: vec![], exit_code, fault: Fault::None, closed: [false; 3], wait_mode: 0, keep_stdin: true, feed: vec![] };
                         if !ctx.run_one("spawn-kept-stdin", &c, || check_spawn(ctx, &c)) {
                             break;
                         }
